@@ -209,20 +209,64 @@ fn replay(args: &[String]) -> i32 {
     0
 }
 
+fn env_from_tla(v: &Value) -> (MapEnv, Vec<String>) {
+    let mut env = MapEnv::default();
+    let mut names = vec![];
+    for (n, cell) in v.as_object().expect("env object") {
+        names.push(n.clone());
+        if cell["set"].as_bool().unwrap_or(false) {
+            let s: String = cell["s"].as_array().map(|a| a.iter().filter_map(|c| c.as_str()).collect()).unwrap_or_default();
+            env.vars.insert(n.clone(), s);
+        }
+    }
+    (env, names)
+}
+
+fn cp_text(v: &Value) -> String {
+    v.as_array().map(|a| a.iter().filter_map(|c| char::from_u32(c.as_u64().unwrap_or(0) as u32)).collect()).unwrap_or_default()
+}
+
+/// Re-executes the case of a replay file (the `replay` object written by
+/// lib/checks/c03.py) on the current tree.
 fn redo(args: &[String]) -> i32 {
     let path = opt(args, "--in").expect("--in");
-    let case: Value = serde_json::from_str(&std::fs::read_to_string(path).expect("read")).expect("json");
-    let text: String = match case.get("cp") {
-        Some(Value::Array(cps)) => cps.iter().filter_map(|c| char::from_u32(c.as_u64().unwrap_or(0) as u32)).collect(),
-        _ => case["text"].as_str().expect("text").to_string(),
+    let rp: Value = serde_json::from_str(&std::fs::read_to_string(path).expect("read")).expect("json");
+    let mut out = open_out(args);
+    let rec = match rp["dir"].as_str().unwrap_or("gen") {
+        "gen" => {
+            let (env0, names) = env_from_plain(&rp["env"]);
+            let obs = evaluate(rp["text"].as_str().expect("text"), &env0);
+            let names = names_of(&env0, &obs, &names);
+            json!({"out": obs_plain(&obs, &names)})
+        }
+        "shell" => {
+            let (_, names) = env_from_plain(&rp["env"]);
+            let obs = shell_eval(rp["script"].as_str().expect("script"), &names);
+            json!({"out": obs_plain(&obs, &names)})
+        }
+        "random" => {
+            let mut rec = rp["rec"].clone();
+            let (env0, names) = env_from_tla(&rec["env"]);
+            let obs = evaluate(rec["text"].as_str().expect("text"), &env0);
+            let names = names_of(&env0, &obs, &names);
+            rec["out"] = obs_tla(&obs, &names);
+            rec
+        }
+        "soup" => {
+            let text = cp_text(&rp["rec"]["cp"]);
+            soup_record(&text, &evaluate(&text, &tree::soup_env()))
+        }
+        "shellsoup" => {
+            let text = cp_text(&rp["rec"]["cp"]);
+            soup_record(&text, &shell_eval(&shellsoup_script(&text), &[]))
+        }
+        other => {
+            eprintln!("unknown direction {other}");
+            return 2;
+        }
     };
-    let (env0, names) = match case["env"].as_object() {
-        Some(_) => env_from_plain(&case["env"]),
-        None => (MapEnv::default(), vec![]),
-    };
-    let obs = evaluate(&text, &env0);
-    let names = names_of(&env0, &obs, &names);
-    println!("{}", json!({"text": text, "out": obs_plain(&obs, &names)}));
+    writeln!(out, "{rec}").unwrap();
+    out.flush().unwrap();
     0
 }
 
@@ -383,6 +427,10 @@ fn shell(args: &[String]) -> i32 {
     0
 }
 
+fn shellsoup_script(text: &str) -> String {
+    format!("x=5; y=; e={}; echo \"R|$(($e))|\"", sh_quote(text))
+}
+
 fn shellsoup(args: &[String]) -> i32 {
     use rand::SeedableRng;
     let n = opt_usize(args, "--n", 200);
@@ -391,8 +439,7 @@ fn shellsoup(args: &[String]) -> i32 {
     for i in 0..n {
         let mut text = tree::random_soup(&mut rng, i);
         text.retain(|c| c != '\0');
-        let script = format!("x=5; y=; e={}; echo \"R|$(($e))|\"", sh_quote(&text));
-        let obs = shell_eval(&script, &[]);
+        let obs = shell_eval(&shellsoup_script(&text), &[]);
         writeln!(out, "{}", soup_record(&text, &obs)).unwrap();
     }
     out.flush().unwrap();
